@@ -227,6 +227,7 @@ def conclude(mod, tier, seed, results, by_id, inconclusive, t_start, out):
     harness_errors = []
     samples = []
     n_evals = 0
+    signatures = set()
     for r in results:
         classes[r['cls']] = classes.get(r['cls'], 0) + 1
         for k, v in r.get('obs', {}).items():
@@ -242,6 +243,8 @@ def conclude(mod, tier, seed, results, by_id, inconclusive, t_start, out):
             for j in range(int(r.get('nontrivial_count', 1))):
                 nontrivial.add((r['hash'], j))
         n_evals += int(r.get('evals', 1))
+        for sg in r.get('signatures', []) or []:
+            signatures.add(sg)
         if r.get('harness_error'):
             harness_errors.append((r['id'], r['harness_error']))
         if r.get('inconclusive'):
@@ -301,6 +304,8 @@ def conclude(mod, tier, seed, results, by_id, inconclusive, t_start, out):
             samples=jsonable(samples),
             classes=classes,
             monitor_observations=jsonable(obs),
+            distinct_signatures=len(signatures),
+            signature_examples=[sg[:200] for sg in sorted(signatures)[:5]],
             known_findings_seen=known_hits,
             inconclusive_reasons=inconclusive[:10],
             verdict=('violated' if violations else
